@@ -72,7 +72,8 @@ def render(text: str, silent: bool = False) -> str:
     for find in [MATCH_SIMPLE, MATCH_COMPLEX]:
         def repl(match: Any) -> str:
             if match[0].startswith('\\'):
-                return match[0][1:]
+                # The silent pass is that of a line macro, whose result is read and rendered again: the escape is left for then.
+                return match[0] if silent else match[0][1:]
             params = match[2]
             if params.startswith('?'):
                 # DEPRECATED: Existential macro invocation.
